@@ -5,6 +5,21 @@ From Coq Require Import Arith Lia ZifyNat ZifyN ZifyBool List NArith Bool ZArith
 Import ListNotations.
 Local Open Scope N_scope.
 
+(** inversion of [Some _ = Some _] / pair equalities WITHOUT normalising the
+    terms (injection/inversion would unfold [be 2 n ++ _] into conses) *)
+Lemma some_inj {A} (a b : A) : Some a = Some b -> a = b.
+Proof. intros H. now injection H. Qed.
+Lemma pair_inj {A B} (a c : A) (b d : B) : (a, b) = (c, d) -> a = c /\ b = d.
+Proof. intros H. now injection H. Qed.
+Ltac pinv H :=
+  lazymatch type of H with
+  | (_, _) = (_, _) =>
+      let H1 := fresh in let H2 := fresh in
+      apply pair_inj in H; destruct H as [H1 H2]; pinv H1; pinv H2
+  | _ => idtac
+  end.
+Ltac inv H := apply some_inj in H; pinv H; subst.
+
 (* ------------------------------------------------------------------ *)
 (** * take *)
 
